@@ -35,7 +35,7 @@ REQUIRED_THEOREMS = [
     # headline theorems restated about the translated definitions
     "translate_bridge", "scale_bridge", "rotate_bridge", "scaleXyz_bridge", "scaleXyz_default_bridge", "flatten_bridge",
     "normalize_bridge", "fitIntoUnitCube_bridge", "translateToOrigin_bridge", "mergeBody_bridge", "mergeRun_bridge",
-    "copy_bridge", "src_copy_switches", "src_translate_round_trip", "src_scale_round_trip", "src_rotate_round_trip", "src_normalize_bbox", "src_transforms_alias_free",
+    "copy_bridge", "src_copy_switches", "fromArrays_bridge", "fromArrays_alias_free", "reorder_spec", "reorder_then_translate_isolated", "src_translate_round_trip", "src_scale_round_trip", "src_rotate_round_trip", "src_normalize_bbox", "src_transforms_alias_free",
 ]
 TRUSTED = [
     "Lean 4.33.0 kernel; axioms ⊆ {propext, Classical.choice, Quot.sound}",
@@ -46,7 +46,8 @@ TRUSTED = [
     "statement into Generated/C06Src.lean over the vocabulary Model/MeshSource.lean (rebinding `mesh.vertices[i] = e` vs in-place "
     "`mesh.vertices[i][c] = x`, loops as folds over id_vertices) and proved equal to the model's operations (Props/C06Source.lean); "
     "[round 5] copy is compiled into statement tables (one row per `copy_mesh.<path> = f(mesh.<path>)`, per branch) whose meaning in the "
-    "model is `copyByTables` (Model/MeshSource.lean), bridged to copyX; flatten follows the repaired (rebinding) code",
+    "model is `copyByTables` (Model/MeshSource.lean), bridged to copyX; flatten follows the repaired (rebinding) code; [round 6] from_arrays and reorder_vertices are compiled statement "
+    "by statement (fromArrays_bridge: fresh cells; reorder_spec: the result lists the STORED vector objects of its input)",
     "floating point: coordinates compared to the exact rational answer with |impl - exact| <= 1e-9*scale + 1e-12 (2e-6*scale when binary32 vertex arrays or parameters are involved); "
     "scipy Rotation.from_matrix on rational orthogonal matrices is trusted to apply that matrix",
     "numpy view/copy rules observed from outside (np.shares_memory, values of every mesh after every op)",
@@ -57,7 +58,8 @@ ASSUMPTIONS = [
     "producers (procedural generators, loaders, boundary extraction) are monitored for alias-freedom, not modelled",
     "normalize is only exercised on meshes whose bounding box is not a point",
 ]
-RULE = ("[round 5: derived meshes (boundary extraction, procedural.triangle) are also flattened first thing after creation and their "
+RULE = ("[round 6: surfaces with a few DECLARED edges next to the ones `prepare` completes (the edge ids of a merge must still be the "
+        "shifted ids of its inputs); reorder_vertices driven as a producer and as a derived mesh] [round 5: derived meshes (boundary extraction, procedural.triangle) are also flattened first thing after creation and their "
         "source must not move] [round 4: `fit_into_unit_cube` driven as well as `normalize(.., False)`; a transform that produces non-finite coordinates is "
         "reported as wrong coordinates] [round 3: parameters offered as int / float Vec, tuples, lists, numpy int32/int64/float32 arrays and numpy scalars, a "
         "vertex OBJECT of the mesh itself as translation vector / origin, rotations as matrix / scipy Rotation / Euler quarter "
@@ -272,7 +274,8 @@ def _apply(meshes, arrays, op):
     k = op[0]
     try:
         if k == "new":
-            m, arr = _build(op[1], op[2], op[3], op[4], op[5])
+            E_ = op[3][:_opt(op)["decl"]] if "decl" in _opt(op) else op[3]      # round 6: only a PREFIX of the edges is declared, the rest completed
+            m, arr = _build(op[1], op[2], E_, op[4], op[5])
             meshes.append(m)
             if arr is not None: arrays.append((len(meshes) - 1, arr, arr.copy()))
         elif k == "copy": meshes.append(copy(meshes[op[1]], copy_attributes=bool(op[2])))
@@ -663,6 +666,7 @@ def _producers():
         "boundary_of_surface": lambda: M.processing.extract_boundary_of_surface(grid()),
         "boundary_of_volume": lambda: M.processing.extract_boundary_of_volume(tet(True)),
         "merge(grid,grid)": lambda: (lambda g: M.mesh.merge([g, g]))(grid()),
+        "reorder_vertices(grid)": lambda: (lambda g: __import__('mouette.mesh.mesh', fromlist=['x']).reorder_vertices(g, [len(g.vertices) - 1 - j for j in range(len(g.vertices))]))(grid()),
         "copy(grid)": lambda: M.mesh.copy(grid()),
         "from_arrays": lambda: M.mesh.from_arrays(np.array([[0., 0., 0.], [1., 0., 0.], [0., 1., 0.]]), F=np.array([[0, 1, 2]])),
     }
@@ -677,7 +681,7 @@ PRODUCER_NAMES = ["ring-open", "ring-closed", "ring-open-2cover", "flat_ring", "
                   "tetrahedron", "tetrahedron-volume", "axis_aligned_cube", "axis_aligned_cube-tri", "hexahedron_4pts", "octahedron",
                   "icosahedron", "dodecahedron", "cylinder", "torus", "sphere_uv", "icosphere", "sphere_fibonacci",
                   "chain_of_vertices", "vector_field", "dual_mesh", "boundary_of_surface", "boundary_of_volume",
-                  "merge(grid,grid)", "copy(grid)", "from_arrays", "load-obj", "load-mesh", "load-off", "load-stl", "load-ply",
+                  "merge(grid,grid)", "reorder_vertices(grid)", "copy(grid)", "from_arrays", "load-obj", "load-mesh", "load-off", "load-stl", "load-ply",
                   "load-geogram_ascii", "load-volume-mesh", "load-volume-tet"]
 
 
@@ -723,7 +727,7 @@ def _oracle_derived(name, t):
     import numpy as np
     import mouette as M
     P, V = M.procedural, M.Vec
-    if name not in ("boundary_of_surface", "boundary_of_volume", "triangle"): return []
+    if name not in ("boundary_of_surface", "boundary_of_volume", "triangle", "reorder_vertices(grid)"): return []
     out = []
     R = np.array([[0., -1., 0.], [1., 0., 0.], [0., 0., 1.]])
     for opname, apply in (("scale", lambda m: M.transform.scale(m, 2.)), ("rotate", lambda m: M.transform.rotate(m, R)),
@@ -735,11 +739,16 @@ def _oracle_derived(name, t):
                 m = P.triangle(*src)
                 snap = lambda: [[float(x) for x in v] for v in src]
             else:
-                base = P.unit_grid(3, 4, triangulate=True) if name == "boundary_of_surface" else \
+                base = P.unit_grid(3, 4, triangulate=True) if name in ("boundary_of_surface", "reorder_vertices(grid)") else \
                     P.tetrahedron(V(0.5, 0., 0.25), V(1., 0., 0.5), V(0., 1., 0.75), V(0., 0., 1.), volume=True)
                 if name == "boundary_of_surface":
                     for i in base.id_vertices: base.vertices[i] = base.vertices[i] + V(0.25, 0.5, 1.)      # no coordinate is 0
-                m = (M.processing.extract_boundary_of_surface if name == "boundary_of_surface" else M.processing.extract_boundary_of_volume)(base)
+                if name == "reorder_vertices(grid)":
+                    for i in base.id_vertices: base.vertices[i] = base.vertices[i] + V(0.25, 0.5, 1.)
+                    n_ = len(base.vertices)
+                    m = __import__('mouette.mesh.mesh', fromlist=['x']).reorder_vertices(base, [(5 * j + 2) % n_ for j in range(n_)])      # shares the vector objects of `base`
+                else:
+                    m = (M.processing.extract_boundary_of_surface if name == "boundary_of_surface" else M.processing.extract_boundary_of_volume)(base)
                 if isinstance(m, tuple): m = next(x for x in m if hasattr(x, "vertices"))
                 snap = lambda: [[float(x) for x in v] for v in base.vertices]
             before = snap()
@@ -784,6 +793,11 @@ def _base_mesh_kind(rng, kind):
         elif r < 0.85: nv, F = 4, [[0, 1, 3, 2]]
         else: nv, F = 5, [[0, 1, 2], [1, 3, 2], [2, 3, 4]]
         E, C = [], []
+        if rng.random() < 0.35:
+            # round 6: a surface with DECLARED edges (a few sides of its faces, any order) next to the ones `prepare` completes
+            sides = sorted({tuple(sorted((f[a], f[(a + 1) % len(f)]))) for f in F for a in range(len(f))})
+            rng.shuffle(sides)
+            E = [list(e) for e in sides[:rng.randint(1, min(3, len(sides)))]]
     else:
         if rng.random() < 0.6: nv, C = 4, [[0, 1, 2, 3]]
         else: nv, C = 5, [[0, 1, 2, 3], [1, 2, 3, 4]]
@@ -794,8 +808,11 @@ def _base_mesh_kind(rng, kind):
         if p not in seen:
             seen.add(p); V.append(list(p))
     via = rng.choice(["raw_int", "from_arrays_int"] if integer else ["raw", "raw", "from_arrays"])
+    decl = len(E)
     m, _ = _build("raw", V, E, F, C)          # canonical (prepared) element lists
     E, F, C = _mesh_elements(m)
+    if decl and F and not via.startswith("from_arrays"):
+        return ["new", via, V, E, F, C, {"decl": decl}]
     return ["new", via, V, E, F, C]
 
 
@@ -993,6 +1010,7 @@ def classify(case, obs):
             dims.append(max(dims[j] for j in op[1]))
         if op[0] == "copyx": ks.append(f"copyx:attrs={int(bool(op[2]))}/conn={int(bool(op[3]))}")
         if op[0] == "normalize" and _opt(op).get("via") == "fit": ks.append("via:fit_into_unit_cube")
+        if op[0] == "new" and "decl" in _opt(op): ks.append("new:declared-edges+completed")
         if op[0] in ("copy", "copyx"):
             if op[1] in cps: ks.append("copy:of-a-copy")
             cps[len(dims) - 1] = op[1]
@@ -1294,10 +1312,10 @@ _OOS_PREP = "out-of-scope: connectivity preparation of a raw mesh (C02)"
 SOURCE_MAP = {
     _M + "_instanciate_raw_mesh_data": "oracle-only",       # every producer goes through it; outputs inspected for shared vectors
     _M + "load": "oracle-only", _M + "save": "out-of-scope: file output (C04)",      # loaders are among the 37 monitored producers
-    _M + "from_arrays": "oracle-only",                      # caller-array aliasing clause of the oracle, 8 array representations
+    _M + "from_arrays": "translated",                       # fromArrays; fromArrays_bridge, fromArrays_alias_free (round 6); + caller-array aliasing clause of the oracle
     _M + "copy": "translated",                              # statement tables copyAttrBranch / copyDataBranch / copyConnBranch; copy_bridge
     _M + "merge": "translated",                             # mergeBody / mergeRun; mergeBody_bridge, mergeRun_bridge, gen_merge_eq
-    _M + "reorder_vertices": "out-of-scope: builds a new mesh through from_arrays-like paths; not in the statement",
+    _M + "reorder_vertices": "translated",                  # reorderVertices; reorder_spec (shares the stored vectors), reorder_then_translate_isolated; driven as producer + derived mesh
     _T + "translate": "translated",                         # translate_bridge, src_translate_round_trip
     _T + "rotate": "translated",                            # rotate_bridge, src_rotate_round_trip (argument coercion checked by shape)
     _T + "scale": "translated",                             # scale_bridge, src_scale_round_trip
